@@ -176,7 +176,7 @@ def _digest_of(d):
     return h.hexdigest()
 
 
-def run_clauses(prop, clauses, seed=0, workers=None, selftest=True):
+def run_clauses(prop, clauses, seed=0, workers=None, selftest=True, fresh=False):
     """Execute every shard of every clause; return merged per-clause results."""
     global _CLAUSES, _PROP, _KNOWN
     _CLAUSES = clauses
@@ -196,7 +196,7 @@ def run_clauses(prop, clauses, seed=0, workers=None, selftest=True):
         for t in order:
             results.append(_work(t))
     else:
-        with ctxm.Pool(workers, maxtasksperchild=None) as pool:
+        with ctxm.Pool(workers, maxtasksperchild=1 if fresh else None) as pool:
             for d in pool.imap_unordered(_work, order, chunksize=1):
                 results.append(d)
     # determinism self-test: first task of each clause is re-run in a fresh
